@@ -152,7 +152,11 @@ def check_upper(case):
             dc = call(pv.ideal_diffusion_curve, t, [comp], perm["T"], perm["p"], prec, mdl)
             dc2 = call(pv2.ideal_diffusion_curve, t, [comp2], perm["T"], perm["p"], prec, mdl)
             if not is_raised(dc) and not is_raised(dc2):
-                require(relerr(dc.partial_fluxes[0][0], dc2.partial_fluxes[0][1]) <= tol, "curve fluxes not exchanged")
+                for i in (0, 1):
+                    slack = 0.0 if is_raised(jv) else 8e-16 * abs(float(jv[i])) / edge
+                    a, b = float(dc.partial_fluxes[0][i]), float(dc2.partial_fluxes[0][1 - i])
+                    require(abs(a - b) <= tol * max(abs(a), abs(b)) + slack, "curve fluxes %r, relabelled %r (expected exchanged)",
+                            dc.partial_fluxes[0], dc2.partial_fluxes[0])
                 sf, sf2 = float(dc.get_separation_factor[0]), float(dc2.get_separation_factor[0])
                 yc, wc = dc.permeate_composition[0].p, comp.to_weight(mix).p
                 edge = min(yc, 1 - yc, wc, 1 - wc)
